@@ -455,6 +455,20 @@ func Exec(h History) *Run {
 					time.Sleep(50 * time.Millisecond)
 					r.problem("C02-FOLLOWUP", "line-stuck", "line %d (%q) was not delivered to the healthy attached input a%d within %v", want, clipData(string(op.Data)), in.A.N, Wait)
 				}
+				// a transmission error of its own ends the input direction (and
+				// with it the shell) without any further traffic
+				faulted := false
+				for _, e := range w.Trace() {
+					if (e.Kind == EvWrite || e.Kind == EvFlush) && e.Att == in.A.N && e.Err != "" {
+						faulted = true
+					}
+				}
+				if faulted && !in.A.AtRelease("input") {
+					if !w.WaitFor(3*time.Second, func([]Ev) bool { return in.A.AtRelease("input") }) {
+						r.problem("C04", "input-survives-transmission-error", "the writer of attached input a%d (%s) reported an error for line %d, but the input direction did not end", in.A.N, in.A.Wr.Kind, want)
+						r.problem("C02", "input-survives-transmission-error", "the writer of attached input a%d (%s) reported an error for line %d, but the input direction did not end", in.A.N, in.A.Wr.Kind, want)
+					}
+				}
 				if in.A.AtRelease("input") {
 					in.EndedBy["input"] = "write/flush fault"
 					cls("end-writer-fault")
